@@ -98,7 +98,21 @@ StreamNext ==
          /\ Emit([op |-> "kahan.program", ty |-> ty, nreg |-> 1,
                   steps |-> << [a |-> "from", r |-> 1, x |-> V(1, 24)],
                               [a |-> dir, r |-> 1, xs |-> <<V(3, 0), V(-1, 0), V(5, -2)>>, rep |-> m] >>])
-    \* the statistics built on the compensated sums
+    \* many registers far below half an ulp of the running sum merged into it, from either side: the
+    \* compensation has to carry them (f32: 2^30 + m * 3.25, f64: 2^60 + m * 3.25)
+    /\ \A dir \in {"lfold", "rfold", "lfold_plus", "rfold_plus"} : \A m \in {1000, IF Thorough THEN 1000000 ELSE 100000} :
+         /\ Emit([op |-> "kahan.program", ty |-> "f32", nreg |-> 1,
+                  steps |-> << [a |-> "from", r |-> 1, x |-> V(1, 30)],
+                              [a |-> dir, r |-> 1, xs |-> <<V(3, 0), V(-1, 0), V(5, -2)>>, rep |-> m] >>])
+         /\ Emit([op |-> "kahan.program", ty |-> "f64", nreg |-> 1,
+                  steps |-> << [a |-> "from", r |-> 1, x |-> V(-1, 60)],
+                              [a |-> dir, r |-> 1, xs |-> <<V(-3, 0), V(1, 0), V(-5, -2)>>, rep |-> m] >>])
+    \* the statistics built on the compensated sums, fed at once and as long merge histories
+    /\ \A ty \in {"f32", "f64"} : \A sty \in {"lfold1", "rfold1", "rfold1_assign", "rfold7", "tree"} :
+         LET n == IF ty = "f32" THEN Rep ELSE Rep64 IN
+         Emit([op |-> "mean.ci", fl |-> "arith", ty |-> ty, style |-> sty, li |-> 12,
+               conf |-> [kind |-> "two", level |-> [dec |-> "0.95"]], first |-> TRUE, role |-> "stream",
+               data |-> [rle |-> << <<V(1, 24), 1>>, <<V(8724152, -26), n \div 2>>, <<V(-1, -3), n \div 4>>, <<V(1025, -13), n \div 4>> >>, order |-> "interleave"]])
     /\ \A ty \in {"f32", "f64"} : \A o \in {"asc", "interleave"} :
          LET n == IF ty = "f32" THEN Rep ELSE Rep64 IN
          Emit([op |-> "mean.ci", fl |-> "arith", ty |-> ty, style |-> "extend", li |-> 12,
